@@ -1929,6 +1929,20 @@ def gen_size_matrix(r):
                 progs.append(Program(f"matrix{n}", ops, tags={"variety": (fl, keyed, "gt-empty", decl), "matrix": ("gt", commit, algo, b""),
                                                               "holds_empty": len(ops) - 1}))
                 n += 1
+            # the zero boundary: a declared size of 0 is a declaration like any other - non-empty data is rejected
+            # (in one chunk and in several), empty data is accepted
+            for d in (b"x", b"twelve bytes", b""):
+                ids = G.Ids()
+                algo = r.pick(L.ALGOS)
+                key = f"m{n}".encode()
+                chunks = [d] if len(d) < 2 else [d[:1], d[1:]]
+                _, ops = w_stream(ids, fl, key if keyed else None, d, [c for c in chunks if c], algo=algo, size=0)
+                commit = len(ops) - 1
+                st = sri_tok(algo, d)
+                ops += [f"read_hash s c0 {st}", f"read_hash a c0 {st}", "dump c0/content-v2", "dump c0/tmp"]
+                progs.append(Program(f"matrix{n}", ops, tags={"variety": (fl, keyed, "zero", len(d)),
+                                                              "matrix": ("lt" if d else "eq", commit, algo, d)}))
+                n += 1
             # declared sizes at and beyond the mapping threshold with far fewer bytes supplied: whatever
             # preallocation the writer did must not reach the content area
             for big in (G.MMAP, G.MMAP + 1, 3 * G.MMAP):
